@@ -484,7 +484,30 @@ func ruleResolveOwner(c *Ctx) {
 		}
 		return false
 	}
+	// two kinds of writer, told apart by role: code that runs during the fixpoint iteration (everything the
+	// tree visitors can call) must count each change; set-up and finalisation code (the rest of the package:
+	// Resolve and the helpers it is split into) runs outside the iteration
 	owners := map[string]bool{"Resolve": true, "recordVar": true}
+	iter := map[*ssa.Function]bool{}
+	var markIter func(fn *ssa.Function)
+	markIter = func(fn *ssa.Function) {
+		if iter[fn] {
+			return
+		}
+		iter[fn] = true
+		allInstrs(fn, func(in ssa.Instruction) {
+			if call, ok := in.(ssa.CallInstruction); ok {
+				if cal := call.Common().StaticCallee(); cal != nil && cal.Pkg == fn.Pkg {
+					markIter(cal)
+				}
+			}
+		})
+	}
+	for _, fn := range c.srcFuncs("internal/resolver") {
+		if fn.Name() == "Visit" && fn.Signature.Recv() != nil {
+			markIter(fn)
+		}
+	}
 	n := 0
 	for _, fn := range c.srcFuncs("internal/resolver") {
 		fn := fn
@@ -504,11 +527,7 @@ func ruleResolveOwner(c *Ctx) {
 				root = root.Parent()
 			}
 			key := "varinfo-write:" + fnKey(fn)
-			if !owners[root.Name()] {
-				c.bad(key, in.Pos(), "%s updates the variable-type table directly: only Resolve and recordVar may write it; a type changed here is not counted as an update, so the fixpoint iteration can stop before the change has propagated (an accepted program then fails at run time with an internal 'found array when expecting scalar' panic)", fnKey(fn))
-				return
-			}
-			if root.Name() == "recordVar" {
+			if iter[root] {
 				// followed in the same block by updates++
 				bumped := false
 				seen := false
@@ -526,7 +545,7 @@ func ruleResolveOwner(c *Ctx) {
 						}
 					}
 				}
-				c.check(bumped, key, in.Pos(), "type-table update in recordVar is followed by updates++", "recordVar changes the type table without incrementing the update counter: the fixpoint loop may terminate early")
+				c.check(bumped, key, in.Pos(), "a type-table update made during the iteration is followed by updates++", fnKey(fn)+" changes the type table during the fixpoint iteration (it is reachable from a tree visitor) without incrementing the update counter: the iteration can stop before the change has propagated (an accepted program then fails at run time with an internal 'found array when expecting scalar' panic)")
 				// the scope written is the scope the variable was found in: the outer key is the constant
 				// global scope (a new global) or the scope name lookupVar reported, never a parameter
 				if lk, ok := mu.Map.(*ssa.Lookup); ok {
@@ -553,7 +572,7 @@ func ruleResolveOwner(c *Ctx) {
 				}
 				return
 			}
-			c.ok(key, in.Pos(), "type table written by its owner %s", root.Name())
+			c.ok(key, in.Pos(), "type table written by set-up / finalisation code (%s is not reachable from a tree visitor)", root.Name())
 			_ = isVarInfoMap
 		})
 	}
